@@ -16,7 +16,6 @@ func TestC13(t *testing.T) { RunK(t, CfgC13()) }
 func TestC16(t *testing.T) { RunK(t, CfgC16()) }
 func TestC18K(t *testing.T) { RunK(t, CfgC18()) }
 func TestC19(t *testing.T) { RunK(t, CfgC19()) }
-func TestC10K(t *testing.T) { RunK(t, CfgC10()) }
 
 const ruleBookD = "D: order books of 1-12 directly stored worth/quantity bids over 1-5 bidders, prices from a pool of 1-5 (ties frequent; integers, n/d ratios, 18-digit fractions, 1e-18..1e6), caps from 1 to above supply, supply from 1 to 1e33, forced dust bids at the top price; CalculateBatchAllocation's MatchingInfo vs the big-integer linear-scan reference."
 
@@ -31,3 +30,4 @@ func TestC14A(t *testing.T)     { RunC14(t) }
 func TestC14Hooks(t *testing.T) { RunC14Hooks(t) }
 func TestC07K(t *testing.T) { RunK(t, CfgC07()) }
 func TestC07A(t *testing.T) { RunC07A(t) }
+func TestC18A(t *testing.T) { RunC18A(t) }
